@@ -53,7 +53,9 @@ func GenerateEntropy(length Entropy) ([]byte, error) {
 		return nil, ErrInvalidLength
 	}
 	bb := make([]byte, length/8)
-	_, _ = rand.Read(bb)
+	if _, err := rand.Read(bb); err != nil {
+		return nil, err
+	}
 	return bb, nil
 }
 
